@@ -383,9 +383,13 @@ pub fn api_use_part(deadline: &Deadline) -> Stats {
                 let ans: Answer = outs.iter().map(|n| (n.clone(), value_of(n))).collect();
                 let clean = run_io_driver(&tc, &ans, usize::MAX, std::io::ErrorKind::Other, 24);
                 // the deprecated name of try_iter is the same function
-                for f in [usize::MAX, fault_at] {
-                    let a = crate::subject::run_io_driver_via(&tc, &ans, f, std::io::ErrorKind::Other, 24, false);
-                    let b = crate::subject::run_io_driver_via(&tc, &ans, f, std::io::ErrorKind::Other, 24, true);
+                // (also against a driver that leaves out the first / the last output: a missing output that
+                // the program reads fails the construction through either name)
+                let without_first: Answer = ans.iter().skip(1).cloned().collect();
+                let without_last: Answer = ans.iter().take(ans.len().saturating_sub(1)).cloned().collect();
+                for (f, ans) in [(usize::MAX, &ans), (fault_at, &ans), (usize::MAX, &without_first), (usize::MAX, &without_last)] {
+                    let a = crate::subject::run_io_driver_via(&tc, ans, f, std::io::ErrorKind::Other, 24, false);
+                    let b = crate::subject::run_io_driver_via(&tc, ans, f, std::io::ErrorKind::Other, 24, true);
                     st.evals += 1;
                     st.witness("run_iter_is_try_iter");
                     if a != b {
